@@ -95,6 +95,37 @@ def _else_introduce(stmts):
   return out
 
 
+def _has_return(st) -> bool:
+  return any(isinstance(x, ast.Return) for x in ast.walk(st))
+
+
+def _tailify(stmts, budget=None):
+  """Rewrites a block so that every `return` is in tail position: the
+  statements that follow an `if` containing a return are moved into each of
+  its arms that can fall through (copied when both can).  Returns inside
+  loops / try / with are left alone (the caller then gives up)."""
+  budget = budget if budget is not None else [40]
+  out = []
+  for i, st in enumerate(stmts):
+    if isinstance(st, ast.If) and _has_return(st):
+      rest = stmts[i + 1:]
+      budget[0] -= 1
+      if budget[0] < 0:
+        return stmts
+      body, orelse = list(st.body), list(st.orelse)
+      if not _terminates(body):
+        body = body + copy.deepcopy(rest)
+      if not _terminates(orelse):
+        orelse = orelse + (copy.deepcopy(rest) if not _terminates(
+            st.body) else rest)
+      st.body = _tailify(body, budget)
+      st.orelse = _tailify(orelse, budget)
+      out.append(st)
+      return out
+    out.append(st)
+  return out
+
+
 def _returns_in_tail(stmts) -> bool:
   """Every Return sits at the end of a block in tail position."""
   for i, st in enumerate(stmts):
@@ -144,8 +175,12 @@ def eligible(h, generator: bool = False, nested_ok: bool = False) -> bool:
       return False
   for x in ast.walk(n):
     if x is not n and isinstance(x, (ast.FunctionDef, ast.AsyncFunctionDef,
-                                     ast.Lambda, ast.ClassDef)):
+                                     ast.ClassDef)):
       return False
+    if isinstance(x, ast.Lambda) and any(
+        isinstance(y, (ast.Lambda, ast.Call)) and y is not x and isinstance(
+            y, ast.Lambda) for y in ast.walk(x)):
+      return False  # a key / predicate lambda is fine, nested ones are not
   return True
 
 
@@ -246,7 +281,7 @@ def _expr_body(h) -> Optional[ast.expr]:
         if a_ is not None and b_ is not None:
           return ast.IfExp(test=stmts[0].test, body=a_, orelse=b_)
       return None
-    out = cond(_else_introduce(copy.deepcopy(body)))
+    out = cond(_tailify(copy.deepcopy(body)))
     if out is not None:
       _COND_HELPERS.add(key)  # spliced as statements where that is possible
   elif body and isinstance(body[-1], ast.Return) and all(
@@ -376,7 +411,7 @@ class Inliner:
     if b is None:
       return None
     body = copy.deepcopy(_strip_doc(h.node.body))
-    body = _else_introduce(body)
+    body = _tailify(body)
     if not _returns_in_tail(body):
       return None
     tag = '__' + h.name.strip('_')
@@ -578,7 +613,7 @@ class Inliner:
         continue
       if _bind(h, c) is None:
         continue
-      body = _else_introduce(copy.deepcopy(_strip_doc(h.node.body)))
+      body = _tailify(copy.deepcopy(_strip_doc(h.node.body)))
       if not _returns_in_tail(body):
         continue
       # unconditionally evaluated: no conditional / deferred context on the way
